@@ -28,37 +28,7 @@ FINISH = dict(level="other",
                            "type re-inference of the pruned program yields its principal types (C04; not decided)"])
 
 
-def path_conditions(fn, start_blocks=None):
-    """Enumerate acyclic paths from entry; yield (blocks, conds) with conds = [(kind, subject, value)]."""
-    succ = fn.succ_map()
-    out = []
-
-    def go(b, acc, conds):
-        if len(out) > 4000:
-            return
-        acc = acc + [b]
-        t = fn.blocks[b]["t"]
-        nxt = succ[b]
-        if not nxt:
-            out.append((acc, conds))
-            return
-        if t["k"] == "switch":
-            si = switch_info(fn, b)
-            for s in nxt:
-                if s in acc:
-                    continue
-                if si:
-                    took = [v for v, tg in si[2].items() if tg == s] or ["other:" + ",".join(si[4])]
-                    go(s, acc, conds + [("enum", si[1].rsplit("::", 1)[-1], si[0], tuple(took))])
-                else:
-                    val = [v for v, tg in t["targets"] if tg == s]
-                    go(s, acc, conds + [("int", t["discr"], None, val[0] if val else "else")])
-        else:
-            for s in nxt:
-                if s not in acc:
-                    go(s, acc, conds)
-    go(0, [], [])
-    return out
+path_conditions = flow.path_conditions
 
 
 def run(ctx, rep):
